@@ -104,7 +104,7 @@ PROPS["C04"] = dict(
               "SqlVerif.Props.C04.setops_nested_preserved"],
     corr=["prec", "chains", "setops"],
     unique_output={"prec": False, "chains": False, "setops": False},
-    oracle=[],
+    oracle=["C04"],
     level_text="Proved in Lean on a hand-written executable model of the Pratt expression parser (parse_subexpr, get_next_precedence with the PostgreSQL/Snowflake overrides, parse_prefix on a fragment, parse_infix with MySQL DIV, NOT, unary sign, PostgreSQL prefix operators, IS-family, [NOT] IN list, [NOT] BETWEEN, LIKE-family with ESCAPE, AT TIME ZONE, ::type, ANY/ALL/SOME, parentheses, recursion counter), for EVERY precedence table and flag record (the 13 built-in rows are instances), every fuel, recursion depth, context precedence and token list: (yield) the consumed tokens are exactly the in-order yield of the tree; (shape) the tree is well shaped - at every binary/mixfix/postfix node nothing exposed on the right edge of the left operand binds looser than the node and nothing exposed on the left edge of the right operand binds looser-or-equal (left associativity), NOT / unary sign / PostgreSQL prefix operators parse their operand at UnaryNot / MulDivModOp / PlusMinus, BETWEEN bounds above Between, LIKE patterns above Like, IS DISTINCT FROM, AT TIME ZONE and casts at Is, AtTz, DoubleColon, and the loop stops only when the next token's precedence is <= the context; (unique_bracketing) two well-shaped trees over identifiers and binary operators with the same yield are equal, and (parse_eq_climbSpec) on operand (operator operand)* input the parser's tree is the tree of an independently defined left-to-right fold; (nested_preserved) a parenthesised group is parsed at level unknown whatever the context, appears as Nested and closes both edges. The model is tied to the code by an exhaustive differential of get_next_precedence (every dialect x token x look-ahead) and by all operator pairs (+ triples, prefixes, parentheses, truncations, nesting around the recursion limit, random chains) per dialect. The same yield / shape / uniqueness (parenthesis-free chains) / parentheses theorems are proved for a second model of parse_query_body / parse_remaining_set_exprs (UNION = EXCEPT = 10 < INTERSECT = 20, all set quantifiers, parenthesised bodies, recursion counter), tied by the stream setops. Partial: uniqueness is proved for identifier/binary-operator chains and parenthesis-free set-operation chains only (general statement kept as FullStatement).",
     level_note="Trusted: Lean kernel (axioms propext, Classical.choice, Quot.sound); the hand-written models (Model/Tok.lean, Model/Expr.lean, Model/Pratt.lean, Model/SetClimb.lean), validated by the differential on the generated chains only; Gen/Dialects.lean and Gen/Keywords.lean as dumped from the running crate; COLLATE_PREC/BRACKET_PREC of postgresql.rs are constants of Cfg.ofRow (120/130), checked by the prec stream. Outside the fragment (functions, subqueries, tuples, CASE/CAST, subscripts, COLLATE, typed strings, lambdas, OPERATOR(...), trailing commas in IN lists) the model answers UNSUPPORTED and the line is skipped (quick tier: 0.6% of lines). A disagreement on a pure infix chain is a violation (unique_bracketing); elsewhere it is reported as a broken tie.",
     technique="Lean 4 proof (simultaneous fuel induction over a mutual executable Pratt model; Cartesian-tree uniqueness; reference fold) + exhaustive precedence differential + pair/triple chain differential on the real parser",
@@ -120,13 +120,14 @@ CURSOR_TB = ["Model/Cursor.lean mirrors peek_nth_token / next_token / prev_token
              "meta-step: Rust code that touches Parser.tokens/index only through the inventoried API behaves like some Prog (privacy of the fields is enforced by rustc; the set of functions with raw access is re-extracted and compared on every run)"]
 
 PROPS["C07"] = dict(
-    lean=["SqlVerif.Props.C07"],
-    namespaces=["SqlVerif.Props.C07"],
-    required=["SqlVerif.Props.C07.cursor_refinement", "SqlVerif.Props.C07.layout_blind", "SqlVerif.Props.C07.layout_blind_accepts"],
-    corr=["cursor"],
-    unique_output={"cursor": False},
+    lean=["SqlVerif.Props.C07", "SqlVerif.Props.C07Lexer"],
+    namespaces=["SqlVerif.Props.C07", "SqlVerif.Props.C07Lexer"],
+    required=["SqlVerif.Props.C07.cursor_refinement", "SqlVerif.Props.C07.layout_blind", "SqlVerif.Props.C07.layout_blind_accepts",
+              "SqlVerif.Props.C07Lexer.layout_lexer", "SqlVerif.Props.C07Lexer.layout_parse", "SqlVerif.Props.C07Lexer.prefix_stable"],
+    corr=["cursor", "tok"],
+    unique_output={"cursor": False, "tok": True},
     oracle=["C07"],
-    level_text="Proved in Lean for ALL programs over the parser's cursor API (a deep embedding with function-typed continuations; tokens are handed over without locations), all token vectors and all whitespace predicates: a program that uses no *_no_skip operation behaves on the raw token vector exactly as on the list of non-whitespace tokens (refinement, incl. errors, reported positions and the prev_token panic), hence two vectors with the same non-whitespace tokens give the same tree / the same rejection whatever whitespace and comments lie between. The cursor model is tied to the code by an op-sequence differential on the real public API and by the regenerated inventory of functions with raw access to tokens/index and of *_no_skip callers. Partial: the lexer half (a whitespace run replaced by another changes only Whitespace tokens) is decided by the layout-replacement oracle on the real code (every whitespace run of every corpus text x 13 layouts x 13 dialects, accepted and rejected texts).",
+    level_text="Proved in Lean for ALL programs over the parser's cursor API (a deep embedding with function-typed continuations; tokens are handed over without locations), all token vectors and all whitespace predicates: a program that uses no *_no_skip operation behaves on the raw token vector exactly as on the list of non-whitespace tokens (refinement, incl. errors, reported positions and the prev_token panic), hence two vectors with the same non-whitespace tokens give the same tree / the same rejection whatever whitespace and comments lie between. The cursor model is tied to the code by an op-sequence differential on the real public API and by the regenerated inventory of functions with raw access to tokens/index and of *_no_skip callers. The lexer half is proved on the tokenizer model (tied to the code by the tok stream): for every non-Redshift dialect record, replacing a whitespace run that starts with a separator character by another such run (both lexing to whitespace tokens in context) leaves the non-whitespace tokens unchanged (layout_lexer, proved for every branch of next_token), and composed with the cursor theorem every whitespace-skipping program gives the same outcome (layout_parse). Redshift's look-ahead past whitespace after `[` is a proved counterexample (known finding). Runs that start with a comment opener directly after a token, and the meta-step from parse functions to programs, are covered by the layout-replacement oracle on the real code (every whitespace run of every corpus text x 13 layouts x 13 dialects, accepted and rejected texts).",
     level_note="Trusted: Lean kernel; hand-written cursor model; the meta-step that parse functions are programs over the inventoried API; the lexer lemma is not proved (oracle + tokenizer correspondence only). COPY payload and BigQuery hyphenated identifiers use *_no_skip by design (listed in the inventory).",
     technique="Lean 4 refinement proof over all cursor programs + op-sequence differential + raw-access inventory + exhaustive layout-replacement oracle",
     trusted_base=CURSOR_TB,
@@ -134,15 +135,16 @@ PROPS["C07"] = dict(
 )
 
 PROPS["C10"] = dict(
-    lean=["SqlVerif.Props.C10"],
-    namespaces=["SqlVerif.Props.C10"],
+    lean=["SqlVerif.Props.C10", "SqlVerif.Props.C10Lexer"],
+    namespaces=["SqlVerif.Props.C10", "SqlVerif.Props.C10Lexer"],
     required=["SqlVerif.Props.C10.error_location_is_real", "SqlVerif.Props.C10.eof_error_has_no_position",
-              "SqlVerif.Props.C10.expected_found_same_token", "SqlVerif.Props.C10.full_statement_parser_half"],
-    corr=["cursor"],
-    unique_output={"cursor": False},
+              "SqlVerif.Props.C10.expected_found_same_token", "SqlVerif.Props.C10.full_statement_parser_half",
+              "SqlVerif.Props.C10Lexer.tok_error_loc_in_range", "SqlVerif.Props.C10Lexer.tok_error_anatomy"],
+    corr=["cursor", "tok"],
+    unique_output={"cursor": False, "tok": True},
     oracle=["C10"],
     level_text="Proved in Lean for ALL programs over the cursor API (so for every parse function, whatever it does) and all token vectors: a location that ends up in an error is the location of a token of the input that the program was handed, or the (0,0) of the EOF sentinel, which prints as no position; programs cannot compute with locations. Tied to the code by the cursor op-sequence differential (returned tokens AND locations compared) and by regenerated inventories (every Location{..} literal in the parser is (0,0); every TokenWithLocation{..} construction; no hash iteration/time/randomness in src/). Partial: which message is paired with which token at each error site, the lexical/syntactic kind, and the tokenizer's error positions are decided by the rejection oracle on the real code (token-level mutations of every corpus text, all dialects).",
-    level_note="Trusted: Lean kernel; hand-written cursor model; meta-step as for C07. Two functions read tokens[index-1] directly for an error position (parse_literal_char, parse_create_role): modelled as a handle to the last consumed token. Lexer error positions wait for the tokenizer model (C09).",
+    level_note="Trusted: Lean kernel; hand-written cursor model; meta-step as for C07. Two functions read tokens[index-1] directly for an error position (parse_literal_char, parse_create_role): modelled as a handle to the last consumed token. Lexer half: on the tokenizer model every lexical error position is the position of a prefix of the input (inside the text or just after its end) and the message is one of ten known shapes (tok_error_loc_in_range, tok_error_anatomy).",
     technique="Lean 4 theorem over all cursor programs (location soundness) + inventories + rejection-position oracle",
     trusted_base=CURSOR_TB,
     assumptions=["parser_err!/expected() are the only constructors of positioned parser errors"],
@@ -163,6 +165,21 @@ PROPS["C14"] = dict(
 )
 
 NOT_CLAIMED = {}
+
+PROPS["C02"] = dict(
+    lean=["SqlVerif.Props.C02Lexer", "SqlVerif.Props.C07", "SqlVerif.Props.C03"],
+    namespaces=["SqlVerif.Props.C02Lexer"],
+    required=["SqlVerif.Props.C02Lexer.tok_total", "SqlVerif.Props.C02Lexer.tok_work_linear", "SqlVerif.Props.C02Lexer.no_panic_builtin",
+              "SqlVerif.Props.C02Lexer.exponent_peek_safe", "SqlVerif.Props.C02Lexer.line_comment_assert_safe", "SqlVerif.Props.C02Lexer.keyword_index_safe"],
+    corr=["tok", "cursor"],
+    unique_output={"tok": True, "cursor": False},
+    oracle=["C02"],
+    level_text="Proved in Lean on the tokenizer model (tied to the code by the tok stream, >1M requests, 0 disagreements): tokenizing is total, makes at most |s|+1 token steps and consumes every character exactly once (linear work), and each panic site of the real tokenizer (matching_end_quote, the exponent unwrap, the single-line-comment assert, the keyword index) is unreachable for every input under the 13 built-in dialect records (side conditions decided on the tabulated dialect rows). The cursor operations never index out of range and prev_token panics exactly at abstract position 0 (cursor refinement theorem, C07), and call depth is bounded by the recursion limit (C03 certificate). Every panic/unwrap/unreachable/assert/index site of parser, tokenizer, dialects and AST code is inventoried from source on every run; a new or changed site is an open obligation. Partial: the parser's unreachable!/unwrap sites outside the modelled code and super-linear backtracking are decided by search on the real code (prefixes, deletions, duplications, splices of every corpus text, fragment soup, deep chains and nestings in child processes, under a cursor-step budget from the hook).",
+    level_note="Trusted: Lean kernel; tokenizer and cursor models; the step counter hook (cursor operations as the work measure); wall time, allocation and real stack bytes are measured, not modelled. Known findings: deep left spines overflow the stack in Display/Debug/Clone/Eq/Drop; POSITION-as-function backtracking is exponential.",
+    technique="Lean 4 theorems on the tokenizer model (totality, linear work, unreachable panic sites) + panic-site inventory + budgeted mutation/deep-input oracle with child-process isolation",
+    trusted_base=["Model/Tokenizer.lean, Model/Cursor.lean (hand-written, tied by streams)", "verif_hooks step counter"],
+    assumptions=["custom dialects keep is_delimited_identifier_start within {\", [, `} (hypothesis of no_panic_of_delims)"],
+)
 
 PROPS["C11"] = dict(
     lean=["SqlVerif.Props.C11"],
@@ -266,6 +283,29 @@ PROPS["C20"] = dict(
     technique="Lean 4 proofs (functional induction along the scanner runs; per-branch simulation of next_token in both modes lifted through the tokenizer loop) + kernel-decided negation witnesses + tokenizer/printer differentials in both modes + raw-body / print / tree-shape oracles on the real code",
     trusted_base=ESCAPE_TB,
     assumptions=["Gen/Dialects.lean and Gen/Keywords.lean are the tables of the crate as built from /repo's working tree"],
+)
+
+PRATT_TB = ["Model/Pratt.lean mirrors src/parser/mod.rs parse_subexpr/parse_prefix/parse_infix/parse_not/parse_in/parse_between and the precedence code of src/dialect/{mod,postgresql,snowflake,mysql}.rs by hand (tied by streams prec, chains, ladder)",
+            "dialect_of! is modelled as a test on the built-in dialect's name; tree nodes of the model keep the tokens they consumed; the S-expression compared with the real AST forgets them"]
+
+PROPS["C12"] = dict(
+    lean=["SqlVerif.Props.C12"],
+    namespaces=["SqlVerif.Props.C12"],
+    required=["SqlVerif.Props.C12.limit_monotone", "SqlVerif.Props.C12.limit_monotone_expr",
+              "SqlVerif.Props.C12.limit_monotone_all", "SqlVerif.Props.C12.limit_stable",
+              "SqlVerif.Props.C12.limit_error_is_real", "SqlVerif.Props.C12.limit_tree_is_real",
+              "SqlVerif.Props.C12.spec_limit_monotone", "SqlVerif.Props.C12.spec_limit_swallowed_error",
+              "SqlVerif.Props.C12.spec_limit_swallowed_tree", "SqlVerif.Props.C12.limit_swallowed",
+              "SqlVerif.Props.C12.spec_limit_propagated", "SqlVerif.Props.C12.fullStatement_fragment"],
+    corr=["ladder"],
+    unique_output={"ladder": False},
+    oracle=["C12"],
+    level_text="Proved in Lean on the executable model of the Pratt expression parser with its recursion counter (every parse_subexpr keeps one level, parse_prefix needs a free level for the typed-string probe behind maybe_parse, ::type takes one in parse_data_type), for EVERY configuration record, fuel, context precedence, token list and limits n <= m: the outcome under n is the limit error or is identical (same tree and rest, or the same error message) to the outcome under m (limit_monotone, for all five functions of the mutual block), hence an outcome that is not the limit error is the outcome under every larger limit (limit_stable), a syntax error reported under a small limit is the syntax error of the unlimited run and a tree returned under a small limit is the tree of the unlimited run. The proof is a simultaneous induction on the fuel with the invariant 'a run under n hits the limit or is step for step the run under m'; it goes through because the model contains no place where the limit error of a sub-parse is turned into anything else - the one speculative parse of the fragment (maybe_parse(parse_data_type) at the head of parse_prefix) passes RecursionLimitExceeded on, as the code does since the maybe_parse fix. Why that matters is proved on an abstract language of backtracking parsers with a depth guard: programs built with the propagating maybe_parse are limit-monotone (spec_limit_monotone), for the swallowing one (any Err => no match, the behaviour before the fix) there are kernel-checked counterexamples in which a small limit yields a syntax error, resp. silently another tree (limit_swallowed). The model is tied to the code by stream ladder: parenthesis / NOT / unary / right- and left-nested operands / IN lists / ANY / BETWEEN / LIKE / AT TIME ZONE / IS DISTINCT FROM / casts / broken nests / random nested expressions and their damaged variants x 13 dialects x limits (quick 13 limits 0..50, thorough every limit 0..60), real outcome vs model. Partial: the theorem covers the expression fragment; the whole grammar (every statement kind, every remaining error-discarding site) is decided on the real code by the limit-ladder oracle over every accepted corpus (text, dialect) pair and its truncation before the last token: outcome(n) must be RecursionLimitExceeded or equal to outcome(1000).",
+    level_note="Trusted: Lean kernel (axioms propext, Quot.sound); the hand-written Pratt model (validated by the differentials on generated chains and nests only). Outside the expression fragment there is no theorem: sites that still discard an error of a recursive sub-parse (parse_set `if let Ok(expr) = self.parse_expr()`, SET TIME ZONE `match self.parse_expr() { Ok.., _ => expected }`, parse_pg_alter_role, the deferred error in parse_duckdb_struct_type_def) are found by the oracle and are known findings of the current tree; a new signature is a violation. The oracle compares with limit 1000, not with 'no limit': inputs whose unlimited parse needs more than 1000 levels are skipped (none in the corpus).",
+    technique="Lean 4 proof (simultaneous fuel induction: limit-monotonicity of the mutual Pratt model; abstract backtracking-combinator theorem with kernel-decided counterexamples for the swallowing variant) + limit-ladder differential on the real parse_expr + whole-grammar limit-ladder oracle on the corpus",
+    trusted_base=PRATT_TB,
+    assumptions=["Gen/Dialects.lean and Gen/Keywords.lean are the tables of the crate as built from /repo's working tree",
+                 "the input of the model is the non-whitespace token list the real tokenizer produced"],
 )
 
 # entries still under construction by a sub-agent are not claimed in MANIFEST.json yet
